@@ -76,6 +76,7 @@ func cmdRun(args []string) {
 	smtlog := fs.String("smtlog", "", "write worker 0's SMT transcript here")
 	cpuprof := fs.String("cpuprofile", "", "")
 	agroup := fs.Int("agroup", 1, "assertions per solver query")
+	budget := fs.Int("budget", 0, "wall-clock budget per harness in seconds (0 = none)")
 	fs.Parse(args)
 	p := loadProg(*repo, *harness)
 	if *cpuprof != "" {
@@ -95,6 +96,9 @@ func cmdRun(args []string) {
 	exit := 0
 	for _, n := range names {
 		opt := exec.Options{Workers: *workers, MaxSteps: 2000000, Unwind: *unwind, MaxPaths: *maxPaths, SolverKind: "z3", TimeoutMs: *tmo, OrderPolicy: *policy, MaxViol: 5, SampleEvery: 50, PanicIsViolation: *panicViol, Verbose: *verbose, OnlyPrefix: *prefix, SMTLog: *smtlog, AssertGroup: *agroup}
+		if *budget > 0 {
+			opt.Deadline = time.Now().Add(time.Duration(*budget) * time.Second)
+		}
 		ex := exec.NewExplorer(p, n, hs[n], opt)
 		t0 := time.Now()
 		ex.Explore()
